@@ -87,6 +87,11 @@ def test_and_set_rules(rep: Report, cl: ClassLocks, m, flag: str, effect_pred, e
         rep.ob(f"{prefix}2-effect-on-winning-path", m, short(e.node), ok,
                f"{effect_name} `{short(e.node)}` is {why}: it can run on a path that did not win the test-and-set "
                f"(more than once) ")
+        first_set = all(w.index < e.index for w in win_sites) and bool(win_sites)
+        rep.ob(f"{prefix}2-effect-on-winning-path", m, f"flag set before {short(e.node)}", first_set,
+               f"`self.{flag}` is set only after {effect_name} ran: a dispose() issued from inside the action (same thread, "
+               f"re-entrant lock) runs it again, and if the action raises the flag is never set and the next dispose() runs it "
+               f"again")
 
 
 def check(repo: Repo, rep: Report) -> None:
@@ -157,7 +162,8 @@ def check(repo: Repo, rep: Report) -> None:
               and u(s.node.value) == init.params[2] for s in sites(init))
     rep.ob("SD1-scheduled-only", init, "inner SingleAssignmentDisposable holds the resource", ok1 and ok2,
            "the wrapped resource is not held by a SingleAssignmentDisposable (exactly-once would be lost)")
-    isd = repo.fn(S, "ScheduledDisposable.is_disposed")
-    ok = any(isinstance(s.node, ast.Return) and u(s.node.value) == "self.disposable.is_disposed" for s in sites(isd))
+    isd = repo.opt_fn(S, "ScheduledDisposable.is_disposed")
+    ok = isd is not None and any(isinstance(s.node, ast.Return) and u(s.node.value) == "self.disposable.is_disposed" for s in sites(isd))
+    isd = isd or repo.fn(S, "ScheduledDisposable")
     rep.ob("SD1-scheduled-only", isd, "return self.disposable.is_disposed", ok,
            "is_disposed does not report the state of the wrapped disposable")
